@@ -82,9 +82,10 @@ var bodyMentions = map[string]struct {
 }
 
 type seenReq struct {
-	ID     string `json:"id"`
-	Code   string `json:"served"`
-	Beyond bool   `json:"beyond_script,omitempty"`
+	ID     string    `json:"id"`
+	Code   string    `json:"served"`
+	Beyond bool      `json:"beyond_script,omitempty"`
+	At     time.Time `json:"-"` // arrival (monotonic clock); only ever used for lower bounds on gaps
 }
 
 // scriptSrv is the scripted peer: Streamable HTTP (POST /mcp) or legacy SSE (GET /sse + POST /message).
@@ -95,14 +96,38 @@ type scriptSrv struct {
 	done        chan struct{}
 
 	mu     sync.Mutex
+	method string // the JSON-RPC method whose answers are scripted
 	script []string
 	pos    int
 	seen   []seenReq
 	stream chan string
 }
 
+// successResult is a well-formed result for every request kind the library clients send.
+var successResult = map[string]string{
+	"initialize":     `{"protocolVersion":"2025-03-26","capabilities":{},"serverInfo":{"name":"s","version":"1"}}`,
+	"tools/list":     `{"tools":[]}`,
+	"tools/call":     `{"content":[{"type":"text","text":"ok"}]}`,
+	"prompts/list":   `{"prompts":[]}`,
+	"prompts/get":    `{"messages":[]}`,
+	"resources/list": `{"resources":[]}`,
+	"resources/read": `{"contents":[{"uri":"res://x","text":"ok"}]}`,
+}
+
+func (s *scriptSrv) setMethod(m string) {
+	s.mu.Lock()
+	s.method = m
+	s.mu.Unlock()
+}
+
+func (s *scriptSrv) scriptedMethod() string {
+	s.mu.Lock()
+	defer s.mu.Unlock()
+	return s.method
+}
+
 func newScriptSrv(legacy bool, refusedAddr string) *scriptSrv {
-	s := &scriptSrv{legacy: legacy, refusedAddr: refusedAddr, done: make(chan struct{})}
+	s := &scriptSrv{legacy: legacy, refusedAddr: refusedAddr, done: make(chan struct{}), method: "tools/list"}
 	s.ts = httptest.NewServer(s)
 	return s
 }
@@ -141,7 +166,7 @@ func (s *scriptSrv) takeSeen() []seenReq {
 	return out
 }
 
-// next consumes the next scripted outcome for a tools/list request with the given id.
+// next consumes the next scripted outcome for a request of the scripted method with the given id.
 func (s *scriptSrv) next(id string) string {
 	s.mu.Lock()
 	defer s.mu.Unlock()
@@ -150,17 +175,17 @@ func (s *scriptSrv) next(id string) string {
 		code, beyond = s.script[s.pos], false
 	}
 	s.pos++
-	s.seen = append(s.seen, seenReq{ID: id, Code: code, Beyond: beyond})
+	s.seen = append(s.seen, seenReq{ID: id, Code: code, Beyond: beyond, At: time.Now()})
 	return code
 }
 
 // takeIfRefused consumes the next outcome when it is "connection refused" (decided at the client side).
-func (s *scriptSrv) takeIfRefused(id string) bool {
+func (s *scriptSrv) takeIfRefused(method, id string) bool {
 	s.mu.Lock()
 	defer s.mu.Unlock()
-	if s.pos < len(s.script) && s.script[s.pos] == "REF" {
+	if method == s.method && s.pos < len(s.script) && s.script[s.pos] == "REF" {
 		s.pos++
-		s.seen = append(s.seen, seenReq{ID: id, Code: "REF"})
+		s.seen = append(s.seen, seenReq{ID: id, Code: "REF", At: time.Now()})
 		return true
 	}
 	return false
@@ -246,22 +271,26 @@ func (s *scriptSrv) ServeHTTP(w http.ResponseWriter, req *http.Request) {
 	}
 	id := string(m.ID)
 	switch {
+	case len(m.ID) != 0 && id != "null" && m.Method == s.scriptedMethod():
+		s.scripted(w, m.Method, id)
 	case m.Method == "initialize":
 		s.answer(w, `{"jsonrpc":"2.0","id":`+id+`,"result":{"protocolVersion":"2025-03-26","capabilities":{},"serverInfo":{"name":"s","version":"1"}}}`, true)
 	case len(m.ID) == 0 || id == "null":
 		w.WriteHeader(http.StatusAccepted)
-	case m.Method == "tools/list":
-		s.scripted(w, id)
 	default:
 		s.answer(w, `{"jsonrpc":"2.0","id":`+id+`,"result":{}}`, false)
 	}
 }
 
-func (s *scriptSrv) scripted(w http.ResponseWriter, id string) {
+func (s *scriptSrv) scripted(w http.ResponseWriter, method, id string) {
 	code := s.next(id)
 	switch code {
 	case "S":
-		s.answer(w, `{"jsonrpc":"2.0","id":`+id+`,"result":{"tools":[]}}`, false)
+		res, ok := successResult[method]
+		if !ok {
+			res = `{}`
+		}
+		s.answer(w, `{"jsonrpc":"2.0","id":`+id+`,"result":`+res+`}`, method == "initialize")
 	case "J":
 		s.answer(w, `{"jsonrpc":"2.0","id":`+id+`,"error":{"code":-32603,"message":"scripted failure"}}`, false)
 	case "J503":
@@ -294,7 +323,7 @@ func (s *scriptSrv) scripted(w http.ResponseWriter, id string) {
 }
 
 // clientSide is the client's HTTP request handler: the default behaviour (client.Do), except that a
-// tools/list POST whose next scripted outcome is "connection refused" is sent to a port nobody listens on.
+// POST of the scripted method whose next scripted outcome is "connection refused" is sent to a port nobody listens on.
 type clientSide struct{ s *scriptSrv }
 
 func (h *clientSide) Handle(ctx context.Context, client *http.Client, req *http.Request) (*http.Response, error) {
@@ -306,7 +335,7 @@ func (h *clientSide) Handle(ctx context.Context, client *http.Client, req *http.
 				ID     json.RawMessage `json:"id"`
 				Method string          `json:"method"`
 			}
-			if json.Unmarshal(b, &m) == nil && m.Method == "tools/list" && h.s.takeIfRefused(string(m.ID)) {
+			if json.Unmarshal(b, &m) == nil && len(m.ID) != 0 && h.s.takeIfRefused(m.Method, string(m.ID)) {
 				r2 := req.Clone(ctx)
 				u := *req.URL
 				u.Host = h.s.refusedAddr
@@ -369,22 +398,30 @@ type e2eResult struct {
 }
 
 // run performs one ListTools call under the given script. cancelAtWait > 0 cancels the caller's
-// context from inside the computation of that wait. observe=false leaves the real waits in place.
+// context from inside the computation of that wait. observe=false leaves the real waits in place
+// (they are then not reported).
 func (e *e2eClient) run(script []string, cancelAtWait int, observe bool) e2eResult {
+	res := e.runCall(func(ctx context.Context, c *mcp.Client) error {
+		_, err := c.ListTools(ctx, &mcp.ListToolsRequest{})
+		return err
+	}, script, cancelAtWait, !observe)
+	if !observe {
+		res.Waits = nil
+	}
+	return res
+}
+
+// runCall performs one client call under the given script. The computed waits are always recorded;
+// with realWaits they are also really slept, otherwise the observer shrinks them to zero.
+func (e *e2eClient) runCall(call func(context.Context, *mcp.Client) error, script []string, cancelAtWait int, realWaits bool) e2eResult {
 	e.srv.setScript(script)
 	ctx, cancel := context.WithTimeout(context.Background(), 20*time.Second)
 	defer cancel()
-	var rec *recorder
-	if observe {
-		rec = &recorder{cancelAtWait: cancelAtWait, cancel: cancel, cancelReturn: cancelWait()}
-		curRec.Store(rec)
-		defer curRec.Store(nil)
-	}
-	_, err := e.c.ListTools(ctx, &mcp.ListToolsRequest{})
-	res := e2eResult{Seen: e.srv.takeSeen(), Err: err}
-	if rec != nil {
-		res.Waits = rec.snapshot()
-	}
+	rec := &recorder{cancelAtWait: cancelAtWait, cancel: cancel, cancelReturn: cancelWait(), real: realWaits}
+	curRec.Store(rec)
+	defer curRec.Store(nil)
+	err := call(ctx, e.c)
+	res := e2eResult{Seen: e.srv.takeSeen(), Err: err, Waits: rec.snapshot()}
 	if cancelAtWait == 0 && ctx.Err() != nil {
 		res.TimedOut = true
 	}
